@@ -70,6 +70,8 @@ def plan(tier, seed):
     for k, (osh, ssh) in enumerate(spaces.shape_pairs(3, 2, min_obj=2) if tier == "quick" else spaces.shape_pairs(3, 3, min_obj=2)):
         out.append({"slice": "session:" + ("O3x2x2" if tier == "quick" else "O3x3x2"), "osh": osh, "ssh": ssh, "menu": o2,
                     "costs": [core[0], core[4]], "rooted": False, "session": True, "unnamed": bool(k % 2)})
+        out.append({"slice": "session:" + ("O3x2x2" if tier == "quick" else "O3x3x2") + "+root", "osh": osh, "ssh": ssh, "menu": o2,
+                    "costs": [core[0]], "rooted": True, "session": True, "unnamed": bool(k % 2)})
     return out
 
 
@@ -129,6 +131,10 @@ def run_shard(shard, tier, seed):
             roots = ordered.root_orders(leafsyn)
             if not roots:
                 continue
+            # a prescribed root may also hold a family that no leaf carries (it only has to be a common supersequence):
+            # the first compatible order with the extra family z at the front, in the middle and at the end
+            r0 = tuple(roots[0])
+            roots = list(roots) + [("z",) + r0, r0[: len(r0) // 2] + ("z",) + r0[len(r0) // 2:], r0 + ("z",)]
         n_inputs += 1
         if not ordered.root_orders(leafsyn):
             counters["inconsistent_inputs"] += 1
